@@ -174,6 +174,39 @@ func parseText(s string, env func(string) string) (cfg nfpm.Config, err error) {
 	return nfpm.ParseWithEnvMapping(strings.NewReader(s), env)
 }
 
+// parseDocViaFile parses the document through the file entry point, twice in a row on the same unchanged file: first
+// under a decoy mapping, then under env. The mapping is the caller's on every call, so the second result must be the
+// one the reader entry point gives under env.
+func parseDocViaFile(doc map[string]any, env func(string) string) (cfg nfpm.Config, err error) {
+	b, err := yaml.Marshal(doc)
+	if err != nil {
+		panic(err)
+	}
+	return parseTextViaFile(string(b), env)
+}
+
+func parseTextViaFile(text string, env func(string) string) (cfg nfpm.Config, err error) {
+	b := []byte(text)
+	f, err := os.CreateTemp(scratchBase(), "c16-*.yaml")
+	if err != nil {
+		panic(err)
+	}
+	defer os.Remove(f.Name())
+	if _, err := f.Write(b); err != nil {
+		panic(err)
+	}
+	f.Close()
+	defer func() {
+		if r := recover(); r != nil {
+			err = fmt.Errorf("PANIC in nfpm.ParseFileWithEnvMapping: %v", r)
+		}
+	}()
+	if _, err := nfpm.ParseFileWithEnvMapping(f.Name(), func(k string) string { return "decoy-" + k }); err != nil {
+		return cfg, fmt.Errorf("under the decoy mapping: %w", err)
+	}
+	return nfpm.ParseFileWithEnvMapping(f.Name(), env)
+}
+
 func misspellings(k string, siblings map[string]bool, foreign []string) []string {
 	var out []string
 	add := func(s string) {
@@ -409,6 +442,11 @@ func checkExpand(ec *ExpandCase) []Violation {
 		return vs
 	}
 	got := ef.Get(&cfg)
+	if fcfg, ferr := parseDocViaFile(doc, mapping(ec.Env)); ferr != nil {
+		vs.add("C16.file-entry.parse-error", "", "document with %s: %v accepted from a reader but rejected from a file: %v", ec.Field, val, ferr)
+	} else if fg := ef.Get(&fcfg); !reflect.DeepEqual(fg, got) {
+		vs.add("C16.file-entry.differs", "", "%s: %q under %v parsed from a file (second parse of that file, other mapping before) gives %q, from a reader %q", ec.Field, val, ec.Env, fg, got)
+	}
 	if ef.List {
 		g, _ := got.([]string)
 		w, _ := want.([]string)
@@ -458,6 +496,11 @@ func checkContentExpand(cc *ContentExpandCase) []Violation {
 	if len(cfg.Contents) != 1 {
 		vs.add("C16.content.count", "", "%d contents parsed", len(cfg.Contents))
 		return vs
+	}
+	if fcfg, ferr := parseDocViaFile(doc, mapping(cc.Env)); ferr != nil {
+		vs.add("C16.file-entry.parse-error", "", "contents document accepted from a reader but rejected from a file: %v", ferr)
+	} else if len(fcfg.Contents) != 1 || fcfg.Contents[0].Source != cfg.Contents[0].Source || fcfg.Contents[0].Destination != cfg.Contents[0].Destination {
+		vs.add("C16.file-entry.differs", "", "contents src %q dst %q (expand=%v) under %v: second parse of the file gives %+v, the reader %q %q", cc.Src.Text(), cc.Dst.Text(), cc.Expand, cc.Env, fcfg.Contents, cfg.Contents[0].Source, cfg.Contents[0].Destination)
 	}
 	ws, wd := cc.Src.Text(), cc.Dst.Text()
 	if cc.Expand {
@@ -570,6 +613,9 @@ func TestC16(t *testing.T) {
 			if _, err := parseText(rc.Text, noEnv); err == nil {
 				t.Fatalf("document with an undefined key is accepted:\n%s", rc.Text)
 			}
+			if _, err := parseTextViaFile(rc.Text, noEnv); err == nil {
+				t.Fatalf("document with an undefined key is accepted when read from a file:\n%s", rc.Text)
+			}
 		}
 		return
 	}
@@ -628,6 +674,10 @@ func TestC16(t *testing.T) {
 				if _, err := parseText(string(b), noEnv); err == nil {
 					var vs vlist
 					vs.add("C16.strict.unknown-key-accepted", "", "document with undefined key %s (misspelling of %s) is accepted", strings.Join(segs, "."), kp)
+					report(map[string]any{"text": string(b)}, vs)
+				} else if _, err := parseTextViaFile(string(b), noEnv); err == nil {
+					var vs vlist
+					vs.add("C16.strict.unknown-key-accepted", "", "document with undefined key %s (misspelling of %s) is rejected from a reader but accepted from a file", strings.Join(segs, "."), kp)
 					report(map[string]any{"text": string(b)}, vs)
 				}
 				// the same document in JSON syntax (which is YAML too) and in flow style
